@@ -94,6 +94,16 @@ def build(tier: str) -> List[Cond]:
     # multi-chain
     for n in (2, 3):
         for L in (1, 2):
+            # every chain with its own charge and adduct list / every global kind on every chain (state must not leak between chains)
+            for tag_, specs in (("charge-adducts", [{"charge": CHARGES[(k + 1) % 4], "adducts": (k + n) % 4} for k in range(n)]),
+                                ("adducts-first-only", [{"charge": 2, "adducts": 1}] + [{} for _ in range(n - 1)]),
+                                ("globals", [{"labile": [(k, 1)], "static": [k % 5], "isotope": [k % 8], "unknown": [(k + 3, 2)], "nterm": [(k + 5, 1)], "cterm": [(k + 9, 3)]} if k % 2 == 0 else {} for k in range(n)])):
+                for fn_, ot in (("o_multi", "M"), ("o_multi_text", "MB")):
+                    conds.append(Cond(oid=f"{ot}/n={n}/L={L}/{tag_}", clause="multi-chain: what one chain carries never shows up on another",
+                                      module="vf.h.c01", func=fn_, shape=dict(L=L, specs=specs),
+                                      sym=[("seqs", "str"), ("c0", "bool"), ("c1", "bool")] + ([("plus", "bool")] if fn_ == "o_multi" else []),
+                                      pre=[f"len(seqs) == {n * L}", f"all(c in {LETTERS!r} for c in seqs)"] + (["c1 == False"] if n == 2 else []),
+                                      timeout=t, functions=FUNCS, bounds=f"{n} chains of {L} symbolic residues, connection kinds symbolic"))
             for rr in range(3 if tier == "quick" else 8):
                 specs = [make_spec([ALL_SLOTS[(rr + k * 2) % 9], ALL_SLOTS[(rr + k * 3 + 1) % 9]], rr + k, npal) for k in range(n)]
                 for sp in specs:
